@@ -54,6 +54,16 @@ pub(crate) fn add(ctx: &mut TulispContext) {
                 ));
             }
         }
+        if values.cdr()?.null() {
+            // A single argument is divided into 1: (/ x) is the reciprocal of x.
+            if *result.inner_ref() == TulispValue::from(0) || *result.inner_ref() == TulispValue::from(0.0) {
+                return Err(Error::new(
+                    ErrorKind::Undefined,
+                    "Division by zero".to_string(),
+                ));
+            }
+            return binary_ops!(std::ops::Div::div, i64::checked_div)(&1.into(), &result);
+        }
         for ele in iter {
             result = binary_ops!(std::ops::Div::div, i64::checked_div)(&result, &ele)?;
         }
